@@ -288,3 +288,34 @@ def run_regressions(prop, reproduces):
                   % (path, ex))
             sys.exit(2)
     return back
+
+
+def load_windows(result):
+    """
+    Traced-line ranges during which an input was open for reading (from the
+    open-r step to the matching close): the "load phase" of each input, where
+    an interruption leaves a half-read document behind.
+    """
+    windows = []
+    opened = {}
+    kinds = {k: kind for (k, kind, _ln) in result.step_lines}
+    paths = {ev[0]: ev[2] for ev in result.trace}
+    for (k, kind, line) in result.step_lines:
+        path = paths.get(k)
+        if kind == "open-r":
+            opened[path] = line
+        elif kind == "close" and path in opened:
+            lo = opened.pop(path)
+            if line > lo:
+                windows.append((lo, line))
+    del kinds
+    return windows
+
+
+def sample_load_phase_line(rng, result):
+    """A traced line inside some input's load phase (None if there is none)."""
+    windows = load_windows(result)
+    if not windows:
+        return None
+    lo, hi = rng.choice(windows)
+    return rng.randrange(lo, hi)
